@@ -113,6 +113,7 @@ def check_cases(ctx, cases, cfg=None, prop=None):
         ctx.cov['traces_validated_against_impl'] += 1
         if m_diff is not None and ('ok' not in m_diff or json.dumps(m_diff['ok'], sort_keys=True) != json.dumps(enc_diff(d), sort_keys=True)):
             mismatches.append(dict(base, kind='corr-diff', impl=enc_diff(d), model=m_diff))
+    vlib.check_oracle_hypothesis(ctx, drv, [(memo, {'a': enc(a), 'b': enc(b)}) for (stream, a, b, kinds), (r, memo) in zip(cases, impl)])
     return mismatches
 
 
